@@ -89,6 +89,8 @@ class PersistentMixin(Module):
                 if not pobj.given:
                     if pname in loaded:
                         pobj.value = loaded[pname]
+                        # a parameter without default is not 'not initialized' any more
+                        pobj.readerror = None
                     if hasattr(self, 'write_' + pname):
                         # a persistent parameter should be written to HW, even when not yet in persistentData
                         self.writeDict[pname] = pobj.value
